@@ -74,7 +74,7 @@ SITE_ARGS = {
     "canon": (1,), "gate1": (1,), "gate2": (2, 3), "swap": (1, 2), "svals": (1,), "compress_site": (1,), "expec_canon": (1,),
     "shift": (1, 2), "auto_swap_noback": (1, 2), "gate3": (2,), "nonlocal_method": (2, 3), "submpo": (1,), "swap_to": (1, 2),
     "schmidt": (1,), "entropy": (1,), "schmidt_gap": (1,), "bipartite": (1,), "magnetization": (1,), "ptr_canon": (1,),
-    "measure": (1,), "measure_seed": (1,),
+    "measure": (1,), "measure_seed": (1,), "measure_get_outcome": (1,),
 }
 
 
@@ -200,10 +200,20 @@ class C08Case(seq.Case):
                 ev.append(("schmidt_gap", i))
                 ev.append(("bipartite", i))
             for i in range(L):
-                ev.append(("magnetization", i))
+                for direction in ("Z", "X", "Y"):
+                    ev.append(("magnetization", i, direction))
             ev.append(("ptr_canon", (1,)))
             ev.append(("ptr_canon", (0, 1)))
             ev.append(("ptr_canon", (1, L - 1)))
+            # sites in the order GIVEN, not sorted
+            ev.append(("ptr_canon", (1, 0)))
+            ev.append(("ptr_canon", (L - 1, 1)))
+            ev.append(("ptr_canon", (2, 0, 1)))
+            ev.append(("expec_canon", (1, 0)))
+            ev.append(("expec_canon", (L - 1, L - 2)))
+            ev.append(("expec_canon", (2, 0)))
+            for s in (0, L - 1):
+                ev.append(("measure_get_outcome", s, 7))
             ev.append(("compute_expec_canon",))
             for s in range(L):
                 for oc in (0, 1):
@@ -338,7 +348,7 @@ class C08Case(seq.Case):
         elif k == "magnetization":
             if dims[e[1]] != 2:
                 raise ValueError("precondition: spin-1/2 site")
-            obs = complex(psi.magnetization(e[1], direction="Z", info=info))
+            obs = complex(psi.magnetization(e[1], direction=e[2], info=info))
         elif k == "expec_canon":
             where = e[1]
             D = int(np.prod([dims[s] for s in where]))
@@ -376,6 +386,12 @@ class C08Case(seq.Case):
                 newv = newv / np.sqrt(p)
             w.vec = newv
             obs = (int(out), p)
+        elif k == "measure_get_outcome":
+            # plain (non in-place) spelling that only returns an outcome: the
+            # state is untouched, so the record must keep describing it
+            out = psi.measure(e[1], get="outcome", seed=e[2], info=info)
+            p0 = np.take(w.vec.reshape(dims), int(out), axis=e[1])
+            obs = (int(out), float(np.vdot(p0, p0).real / np.vdot(w.vec, w.vec).real))
         elif k == "measure_seed":
             s, sd = e[1], e[2]
             out, _ = psi.measure_(s, seed=sd, info=info)
@@ -494,8 +510,8 @@ class C08Case(seq.Case):
                 if not np.allclose(got[:n], sv[:n], atol=1e-8) or np.any(got[n:] > 1e-8):
                     return "bipartite schmidt state amplitudes %r, dense singular values %r" % (got[:6], sv)
         elif k == "magnetization":
-            Z = np.diag([0.5, -0.5])
-            # the library returns the plain <psi|S_z|psi> (no division by the norm)
+            Z = {"Z": np.diag([0.5, -0.5]), "X": np.array([[0, 0.5], [0.5, 0]]), "Y": np.array([[0, -0.5j], [0.5j, 0]])}[e[2]]
+            # the library returns the plain <psi|S|psi> (no division by the norm)
             want = np.vdot(v, ref.apply_op(Z, v, dims, [e[1]]))
             if abs(obs - want) > 1e-8 * max(1.0, abs(want)):
                 return "magnetization %r, dense state gives %r" % (obs, want)
@@ -517,7 +533,7 @@ class C08Case(seq.Case):
             want = ref.ptrace(v, dims, list(e[1])) / nrm2
             if obs.shape != want.shape or ref.relerr(obs, want) > 1e-8:
                 return "reduced density matrix differs from the dense partial trace (relerr %.2e)" % (ref.relerr(obs, want) if obs.shape == want.shape else float("inf"))
-        elif k in ("measure", "measure_seed"):
+        elif k in ("measure", "measure_seed", "measure_get_outcome"):
             out, p = obs
             if k == "measure" and out != e[2]:
                 return "outcome %r but %r was requested" % (out, e[2])
